@@ -1,4 +1,5 @@
 import Glom.Lemmas.C12b
+import Glom.Lemmas.C11l
 import Glom.Model.C11Env
 /-
   C12 — delete removes exactly the addressed element, or nothing.
@@ -65,6 +66,18 @@ theorem c12_facts_s_first (sroot : Bool) (steps : List Step) :
   have ht : genSFirst "Delete" = [(".", "["), ("P", "[")] := by decide
   rw [ht]
   exact Glom.C11.initPath_eq_readSteps sroot steps
+
+/-- **Facts obligation, the registry of the builtin kinds**: the prescription computes Python's `del`
+    with tables fixed by the kind of the object (`naturalDeleteReg`: dict → `del d[k]`, list →
+    `del l[int(k)]`, tuple → not deletable, any other object → `delattr`); the `delete` registrations
+    read from the implementation (the results of `_delete_autodiscover` for the default types)
+    select the same handler on every builtin class and, through the MRO, on subclasses. -/
+theorem c12_facts_natural :
+    regAgrees Generated.targetClassTable Generated.defaultReg_delete naturalDeleteReg = true ∧
+    regAgrees (Generated.targetClassTable ++ [("DictSub", ["DictSub", "dict", "object"]),
+        ("ListSub", ["ListSub", "list", "object"]), ("TupleSub", ["TupleSub", "tuple", "object"]),
+        ("Obj2", ["Obj2", "Obj", "object"])])
+      Generated.defaultReg_delete naturalDeleteReg = true := by decide
 
 /-- **Facts obligation with user registrations**: `_del_one`'s branch table does not depend on the
     registry — the theorems hold for every `delete` handler table (user types registered with any of
@@ -207,26 +220,30 @@ theorem c12_ignore_missing {env : MEnv} {orig : List Step} (hy : Hyps env orig) 
   · rw [href] at hr; obtain ⟨h1, _, h3⟩ := hr; exact ⟨by simpa using h3, h1⟩
   · rw [href] at hr; obtain ⟨h1, _, h3⟩ := hr; exact ⟨by simpa using h3, h1⟩
 
-/-- **Or nothing**: any other deletion fault (immutable container, raising `__delattr__` /
-    `__delitem__`, unhashable key, non-index on a list, a path `Delete.__init__` rejects) leaves
-    the heap exactly as it was, and is reported as an error unless `ignore_missing` hid it. -/
+/-- **Or nothing, and exactly which outcome**: any other deletion fault leaves the heap exactly as it
+    was; when the fault is the failure of the `delete` handler registered for a plain segment
+    (`silent`: whatever it raises means "cannot be deleted") it is a PathDeleteError, and silently
+    ignored under `ignore_missing`; every other fault (`T[..]` / `T.attr` raising RuntimeError /
+    TypeError, a type without handler, a path the constructor rejects) is raised whatever
+    `ignore_missing` says. -/
 theorem c12_fault_unchanged {env : MEnv} {orig : List Step} (hy : Hyps env orig) (sroot : Bool)
-    (sref : Val) (ignore : Bool) (h : Heap) (target : Val)
-    (href : refDelete env h (if sroot then sref else target) orig ignore = .fault) :
+    (sref : Val) (ignore : Bool) (h : Heap) (target : Val) (silent : Bool)
+    (href : refDelete env h (if sroot then sref else target) orig ignore = .fault silent) :
     (delete env sroot sref ignore h target orig).1.heap = h ∧
-    ((∃ e, (delete env sroot sref ignore h target orig).2 = .error e) ∨ ignore = true) := by
+    (if silent then
+       (if ignore then (delete env sroot sref ignore h target orig).2 = .ok target
+        else ∃ e a, (delete env sroot sref ignore h target orig).2 = .error (.pdelete e a))
+     else ∃ e, (delete env sroot sref ignore h target orig).2 = .error e) := by
   have hr := c12_refines hy sroot sref ignore h target
   rw [href] at hr
   obtain ⟨h1, _, h3⟩ := hr
-  refine ⟨h1, ?_⟩
-  rcases h3 with h3 | h3
-  · exact .inl h3
-  · exact .inr h3.1
+  exact ⟨h1, h3⟩
 
 /-- **Wildcards**: when the parent path contains `*`, `delete` deletes at every addressed object
     (`matchesOf`), in order, each on the heap the previous deletion left; under `ignore_missing`
-    the matches lacking the element are skipped; otherwise the first match that cannot be
-    deleted raises. -/
+    the matches whose element "cannot be deleted" (`swallowed`) are skipped; the first match whose
+    deletion raises ends the call with an error, **the heap being exactly what the deletions before
+    it left** — for both values of `ignore_missing`. -/
 theorem c12_star {env : MEnv} (hwf : C12.WF env = true) (hc : classesOK env = true)
     (hns : noScope env = true) (sref : Val) (ignore : Bool) (h : Heap) (target : Val)
     (orig : List Step) (op : String) (arg : Val) (hl : orig.getLast? = some (op, arg))
@@ -234,8 +251,8 @@ theorem c12_star {env : MEnv} (hwf : C12.WF env = true) (hc : classesOK env = tr
     (hm : matchesOf env h orig.dropLast 0 target = .ok ds) :
     let out := delete env false sref ignore h target orig
     match seqDel env ignore op arg h false ds with
-    | some (h', hid) => out.2 = .ok target ∧ out.1.heap = h' ∧ out.1.hidden = hid
-    | none => ignore = false → ∃ e, out.2 = .error e := by
+    | .ok (h', hid) => out.2 = .ok target ∧ out.1.heap = h' ∧ out.1.hidden = hid
+    | .error (h', hid) => (∃ e, out.2 = .error e) ∧ out.1.heap = h' ∧ out.1.hidden = hid := by
   obtain ⟨hwf1, hx, _, _, _⟩ := C12.WF_parts hwf
   have hspec := fetch_spec' hwf1 hx hc h orig.dropLast hw (.inr (noScope_isScope hns h)) 0 target
   rw [hm] at hspec
@@ -245,16 +262,42 @@ theorem c12_star {env : MEnv} (hwf : C12.WF env = true) (hc : classesOK env = tr
   have hs := seqM_delete hwf hfin ignore arg ds { heap := h }
   simp only at hs
   cases hsa : seqDel env ignore op arg h false ds with
-  | none =>
+  | error res =>
+    obtain ⟨h', hid⟩ := res
     rw [hsa] at hs
-    intro hig
-    obtain ⟨st', e, hrun⟩ := hs hig
-    simp [hrun]
-  | some res =>
+    obtain ⟨st', e, hrun, h1, h2⟩ := hs
+    simp [hrun, h1, h2]
+  | ok res =>
     obtain ⟨h', hid⟩ := res
     rw [hsa] at hs
     obtain ⟨st', hrun, h1, h2⟩ := hs
     simp [hrun, h1, h2]
+
+/-- **Checker theorem for wildcard paths** (T-rooted, `*` only, the parent's matches exist): `checkC12`
+    holds of the model's observation — success with exactly the prescribed heap, or an error with the
+    heap the deletions before the failing match left. -/
+theorem c12_star_model_checks {env : MEnv} (hwf : C12.WF env = true) (hc : classesOK env = true)
+    (hns : noScope env = true) (sref : Val) (ignore : Bool) (h : Heap) (target : Val)
+    (orig : List Step) (op : String) (arg : Val) (hl : orig.getLast? = some (op, arg))
+    (hfin : finalOk op = true) (hw : wfStar orig.dropLast = true) (hst : hasStar orig.dropLast = true)
+    (ds : List Val) (hm : matchesOf env h orig.dropLast 0 target = .ok ds) :
+    checkC12 env h target target orig ignore (C12.observe env (delete env false sref ignore h target orig)) = true := by
+  have hstar := c12_star hwf hc hns sref ignore h target orig op arg hl hfin hw ds hm
+  simp only at hstar
+  unfold checkC12 refDelete
+  simp only [hl, hfin, Bool.not_true, Bool.false_eq_true, if_false, hm, hst, if_true]
+  cases hsa : seqDel env ignore op arg h false ds with
+  | ok res =>
+    obtain ⟨h', hid⟩ := res
+    rw [hsa] at hstar
+    obtain ⟨h1, h2, h3⟩ := hstar
+    simp [C12.observe, C11.observe, h1, h2, h3]
+  | error res =>
+    obtain ⟨h', hid⟩ := res
+    rw [hsa] at hstar
+    obtain ⟨⟨e, h1⟩, h2, h3⟩ := hstar
+    simp only [C12.observe, C11.observe, h1, h2, h3, beq_self_eq_true, Bool.and_true]
+    exact observeErr_isErr env e
 
 /-- **Delete after assign** (`_partial`: destinations whose parent exists; the hypotheses of put-get:
     the parent path does not pass through the written object, immediate path arguments, a visible
@@ -331,6 +374,81 @@ theorem c12_delete_after_assign_partial {env : MEnv} {orig : List Step} (hy : Hy
           (refDelete_ok_of hl hfin hpns hpre hd1)
         exact ⟨ra.1, by rw [ra.2, hheap]⟩
 
+/-- **Read-back in the same chain** (how a delete is observed on the implementation, the only way for an
+    S-rooted one): in `glom(target, (Delete(path, ignore_missing=…), readPath))` the later step reads, in
+    the heap the deletion left, exactly what `readPath` addresses in the heap of Python's `del` — a
+    PathAccessError at the deleted element when the read goes through it, the original values when a
+    missing / undeletable element was silently ignored; after a Delete that raised the read does not
+    run.  S-rooted: the read starts from the scope frame, whose variables a Delete in a chain cannot
+    unbind (they live in outer frames: `scope_outer`). -/
+theorem c12_read_checks {env : MEnv} {orig : List Step} (hy : Hyps env orig) (sroot : Bool) (sref : Val)
+    (ignore : Bool) (h : Heap) (target : Val) (rd : List Step)
+    (hrd : wfStar (readSteps sroot rd) = true)
+    (hns : hasStar (readSteps sroot rd) = false ∨ noScope env = true) :
+    checkReadDel env h (if sroot then sref else target) orig ignore (readSteps sroot rd)
+      (deleteThenRead env sroot sref ignore h target orig rd).1.1.heap
+      (observeRead env (deleteThenRead env sroot sref ignore h target orig rd).2) = true := by
+  obtain ⟨hwf, hc, _⟩ := C12.covered_parts hy
+  obtain ⟨hwf1, hx, _, _, _⟩ := C12.WF_parts hwf
+  have hr := c12_refines hy sroot sref ignore h target
+  have hns' : ∀ H : Heap, hasStar (readSteps sroot rd) = false ∨ ∀ c, isScope env H c = false := by
+    intro H
+    rcases hns with a | a
+    · exact .inl a
+    · exact .inr (noScope_isScope a H)
+  have key : ∀ H hid, (delete env sroot sref ignore h target orig).2 = .ok target →
+      (delete env sroot sref ignore h target orig).1.heap = H →
+      checkReadRef env h.length (if sroot then sref else target) (.ok H hid 0) (readSteps sroot rd)
+        (deleteThenRead env sroot sref ignore h target orig rd).1.1.heap
+        (observeRead env (deleteThenRead env sroot sref ignore h target orig rd).2) = true := by
+    intro H hid h1 h2
+    cases hid with
+    | true => rfl
+    | false =>
+      simp only [deleteThenRead, h1, h2]
+      exact checkReadRef_ok hwf1 hx hc _ _ H 0 _ hrd (hns' H)
+  have nrun : ∀ a, (∃ e, (delete env sroot sref ignore h target orig).2 = .error e) →
+      checkReadRef env h.length (if sroot then sref else target) (.fail a) (readSteps sroot rd)
+        (deleteThenRead env sroot sref ignore h target orig rd).1.1.heap
+        (observeRead env (deleteThenRead env sroot sref ignore h target orig rd).2) = true := by
+    intro a ⟨e, he⟩
+    simp [checkReadRef, deleteThenRead, he, observeRead]
+  unfold checkReadDel
+  cases href : refDelete env h (if sroot then sref else target) orig ignore with
+  | unsupported => rw [href] at hr; exact hr.elim
+  | partialFail h' hid => rw [href] at hr; exact hr.elim
+  | ok h' hid =>
+    rw [href] at hr
+    exact key h' hid hr.1 hr.2.1
+  | missingFinal e =>
+    rw [href] at hr
+    obtain ⟨h1, _, h3⟩ := hr
+    cases ignore with
+    | true => simp only [if_true] at h3; exact key h false h3 h1
+    | false =>
+      simp only [Bool.false_eq_true, if_false] at h3
+      obtain ⟨a, _, h3⟩ := h3
+      exact nrun true ⟨_, h3⟩
+  | missingParent k e =>
+    rw [href] at hr
+    obtain ⟨h1, _, h3⟩ := hr
+    cases ignore with
+    | true => simp only [if_true] at h3; exact key h false h3 h1
+    | false => simp only [Bool.false_eq_true, if_false] at h3; exact nrun true ⟨_, h3⟩
+  | fault silent =>
+    rw [href] at hr
+    obtain ⟨h1, _, h3⟩ := hr
+    cases silent with
+    | false => simp only [Bool.false_eq_true, if_false] at h3; simpa [readRef] using nrun true h3
+    | true =>
+      simp only [if_true] at h3
+      cases ignore with
+      | true => simp only [if_true] at h3; exact key h false h3 h1
+      | false =>
+        simp only [Bool.false_eq_true, if_false] at h3
+        obtain ⟨e, a, h3⟩ := h3
+        exact nrun true ⟨_, h3⟩
+
 /-- **Checker theorem** — the form in which the property is also evaluated on the
     implementation's observation by the correspondence driver. -/
 theorem c12_model_checks {env : MEnv} {orig : List Step} (hy : Hyps env orig) (sroot : Bool)
@@ -343,7 +461,7 @@ theorem c12_model_checks {env : MEnv} {orig : List Step} (hy : Hyps env orig) (s
   simp only [C12.observe, C11.observe]
   cases href : refDelete env h (if sroot then sref else target) orig ignore with
   | unsupported => rw [href] at hr; exact hr.elim
-  | partialFail => rw [href] at hr; exact hr.elim
+  | partialFail h' hid => rw [href] at hr; exact hr.elim
   | ok h' hid =>
     rw [href] at hr
     obtain ⟨h1, h2, h3⟩ := hr
@@ -367,13 +485,25 @@ theorem c12_model_checks {env : MEnv} {orig : List Step} (hy : Hyps env orig) (s
       simp only [Bool.false_eq_true, if_false] at h3
       have hsub := (WF_exc hwf).2
       simp [h1, h2, h3, observeErr, obsErr, hsub]
-  | fault =>
+  | fault silent =>
     rw [href] at hr
     obtain ⟨h1, h2, h3⟩ := hr
-    rcases h3 with ⟨e, h3⟩ | ⟨hi, h3⟩
-    · simp only [h1, h2, h3, beq_self_eq_true, Bool.not_false, Bool.and_self, Bool.true_and]
-      cases e <;> simp [observeErr, obsErr, ObsRes.isErr]
-    · subst hi; simp [h1, h2, h3]
+    cases silent with
+    | true =>
+      simp only [if_true] at h3
+      cases ignore with
+      | true => simp only [if_true] at h3; simp [h1, h2, h3]
+      | false =>
+        simp only [Bool.false_eq_true, if_false] at h3
+        obtain ⟨e, a, h3⟩ := h3
+        have hsub := (WF_exc hwf).1
+        simp [h1, h2, h3, observeErr, obsErr, hsub]
+    | false =>
+      simp only [Bool.false_eq_true, if_false] at h3
+      obtain ⟨e, h3⟩ := h3
+      simp only [h1, h2, h3, beq_self_eq_true, Bool.not_false, Bool.and_self, Bool.true_and, Bool.false_eq_true,
+        if_false]
+      exact observeErr_isErr env e
 
 /-! ### non-vacuity: concrete inputs meet every hypothesis; the facts obligation is not idle -/
 
@@ -402,7 +532,7 @@ example : (delete exEnv false .none true exHeap (.ref 0) [("[", .str "zz")]).2 =
 example : refDelete exEnv exHeap (.ref 0) [("P", .str "q"), ("P", .str "0")] false =
     .missingParent 0 (exc "KeyError") := by decide
 /-- a fault: `del` on a scalar through `T[...]` is a TypeError, raised as it is -/
-example : refDelete exEnv exHeap (.ref 0) [("P", .str "k"), ("[", .int 0)] false = .fault ∧
+example : refDelete exEnv exHeap (.ref 0) [("P", .str "k"), ("[", .int 0)] false = .fault false ∧
     (delete exEnv false .none false exHeap (.ref 0) [("P", .str "k"), ("[", .int 0)]).2 =
       .error (.raised (exc "TypeError")) := by decide
 
